@@ -611,6 +611,9 @@ func runCell(p *pki, o *origin, cl cell, timeout time.Duration) (res cellResult)
 				}
 			}
 		}
+		if tag == "" && len(bg.Hellos) > 0 {
+			okQuic[hi] = true // the Alt-Svc goroutine has handshaken with this authority: a connection of its own may serve later requests
+		}
 		if ok && tag == "" {
 			okSince[hi] = true
 			if rec.Outcome == "V3" {
